@@ -87,6 +87,9 @@ def load_contracts(index: SourceIndex, modules: list[str]) -> dict[str, Contract
             bases = [b.id for b in ci.node.bases if isinstance(b, ast.Name)]
             if 'Contract' in bases or 'Lemma' in bases:
                 c = Contract(index, ci)
+                if c.name in out:
+                    # a second class of the same name would silently replace the first one
+                    raise ExtractionError(f'duplicate contract name {c.name}: {out[c.name].ci.module.name} and {m}')
                 out[c.name] = c
     return out
 
@@ -254,7 +257,16 @@ class Explorer:
             bound = self.bind_target(P, info, args, kwargs or {})
         except SymRaise:
             return None
-        for c in self.by_target_all[info.qualname]:
+        cands = self.by_target_all[info.qualname]
+        if self.current is not None:
+            # helper contracts written next to the contract being verified come first
+            here = self.current.ci.module.name
+            cands = [c for c in cands if c.ci.module.name == here] + [c for c in cands if c.ci.module.name != here]
+            # c14x: a contract excluded BY NAME (`no_use` / not in `use`) is skipped here, so that the next contract of
+            # the same target is tried instead of inlining (exclusion by target name still means: inline)
+            cur = self.current
+            cands = [c for c in cands if c.name not in cur.no_use and (cur.use is None or c.name in cur.use or c.short in cur.use)]
+        for c in cands:
             ok = True
             for p_, tstr in c.params.items():
                 if p_ not in bound:
